@@ -146,6 +146,94 @@ theorem condTrue_removeCond (cs : List Cond) (t t' : String) (h : condTrue (remo
   obtain ⟨x, hx, hp⟩ := h
   exact ⟨x, (List.mem_filter.1 hx).1, hp⟩
 
+/-! ### writes on the ObjectSet never touch managed objects -/
+
+theorem applySetEnv_events (s : Sys) (op : SetEnvOp) : (s.applySetEnv op).w.events = s.w.events := by
+  cases op <;> simp only [Sys.applySetEnv] <;> (repeat' split) <;>
+    simp [Sys.thirdPartyStore, Sys.setSet] <;> (repeat' split) <;> simp [Sys.setSet]
+
+theorem foldl_applySetEnv_events (l : List (Nat × SetEnvOp)) (s : Sys) :
+    (l.foldl (fun s e => s.applySetEnv e.2) s).w.events = s.w.events := by
+  induction l generalizing s with
+  | nil => rfl
+  | cons a t ih => simp only [List.foldl_cons]; rw [ih, applySetEnv_events]
+
+theorem lockedWrite_events (s : Sys) (m : OSet) (f : OSet → OSet) :
+    (s.lockedWrite m f).1.w.events = s.w.events := by
+  simp only [Sys.lockedWrite, Sys.beforeSetWrite]
+  split
+  · simp [foldl_applySetEnv_events]
+  · split
+    · simp [foldl_applySetEnv_events]
+    · split
+      · simp [Sys.setSet, foldl_applySetEnv_events]
+      · split
+        · simp [foldl_applySetEnv_events]
+        · simp [Sys.setSet, Sys.bumpRV, foldl_applySetEnv_events]
+
+theorem updateStatus_events (s : Sys) (mem : OSet) : (s.updateStatus mem).1.w.events = s.w.events := by
+  simp only [Sys.updateStatus]
+  split <;> simp [lockedWrite_events]
+
+theorem setFinalizer_events (s : Sys) (mem : OSet) (b : Bool) : (s.setFinalizer mem b).1.w.events = s.w.events := by
+  simp only [Sys.setFinalizer]
+  split
+  · rfl
+  · split <;> simp [lockedWrite_events]
+
+/-- condition bookkeeping: setting / removing a condition of ANOTHER type does not change
+whether a condition is True. -/
+theorem condTrue_setCond_other (cs : List Cond) (c : Cond) (t : String) (h : c.type ≠ t) :
+    condTrue (setCond cs c) t = condTrue cs t := by
+  simp only [setCond]
+  split
+  · simp only [condTrue, List.any_map]
+    congr 1; funext x
+    by_cases hx : x.type = c.type
+    · simp [hx, h]
+    · simp [hx]
+  · simp [condTrue, h]
+
+theorem condTrue_removeCond_other (cs : List Cond) (t' t : String) (h : t' ≠ t) :
+    condTrue (removeCond cs t') t = condTrue cs t := by
+  simp only [condTrue, removeCond, List.any_filter]
+  congr 1; funext x
+  by_cases hx : x.type = t
+  · simp [hx, h.symm]
+  · simp [hx]
+
+theorem condTrue_setCond_true (cs : List Cond) (t r : String) (g : Nat) (m : String) :
+    condTrue (setCond cs ⟨t, "True", r, g, m⟩) t = true := by
+  simp only [setCond]
+  split
+  · rename_i hany
+    simp only [condTrue, List.any_map, List.any_eq_true, Function.comp] at hany ⊢
+    obtain ⟨x, hx, hp⟩ := hany
+    exact ⟨x, hx, by simp at hp; simp [hp]⟩
+  · simp [condTrue]
+
+/-- the derived status says Available=True exactly when no phase failed. -/
+theorem deriveStatus_available (mem : OSet) (co : List CRef) (failing : Option String) :
+    condTrue (deriveStatus mem co failing).conds "Available" = failing.isNone := by
+  have havail : ∀ cs g, condTrue (availConds cs g failing) "Available" = failing.isNone := by
+    intro cs g
+    cases failing with
+    | some ph => exact condTrue_setCond_false _ "Available" "False" _ _ _ (by simp)
+    | none => exact condTrue_setCond_true _ "Available" _ _ _
+  simp only [deriveStatus, succConds]
+  split
+  · rw [condTrue_setCond_other _ _ _ (by simp)]; exact havail _ _
+  · exact havail _ _
+
+theorem deriveStatus_controllerOf (mem : OSet) (co : List CRef) (failing : Option String) :
+    (deriveStatus mem co failing).controllerOf = co := rfl
+
+theorem deriveStatus_lifecycle (mem : OSet) (co : List CRef) (failing : Option String) :
+    (deriveStatus mem co failing).lifecycle = mem.lifecycle := rfl
+
+theorem deriveStatus_gen (mem : OSet) (co : List CRef) (failing : Option String) :
+    (deriveStatus mem co failing).gen = mem.gen := rfl
+
 @[simp] theorem afterStatus_fst (x : Sys × Except ApiErr OSet) (r : Res) : (afterStatus x r).1 = x.1 := by
   obtain ⟨s, e⟩ := x; cases e <;> rfl
 
